@@ -77,11 +77,16 @@ Proof. exact (tcp_flags_bits_exact C18_tcp_table_certificate). Qed.
 (* round trip: any sequence of flag names (any subset, order, repetition), each written in any letter
    case, joined by commas, parses to that sequence and sets exactly the union of their bits *)
 Theorem C18_tcp_flags_roundtrip : forall pieces names,
-  pieces <> [] -> join 44 pieces <> [] ->
+  pieces <> [] ->
   Forall2 (fun p n => to_lower p = n /\ mem 44 p = false /\ is_flag_name rfc_tcp_flags n = true) pieces names ->
   parse_tcp_flags (join 44 pieces) = Some names /\ tcp_flag_bits names = rfc_bits rfc_tcp_flags names.
 Proof.
-  intros pieces names Hne Hj H.
+  intros pieces names Hne H.
+  assert (Hj : join 44 pieces <> []).
+  { destruct H as [|p n ps ns [Hl [_ Hn]] Hrest]; [congruence|].
+    assert (Hp : p <> []) by (intros ->; subst n; vm_compute in Hn; discriminate).
+    destruct ps as [|p' ps']; [exact Hp|]. rewrite join_cons by discriminate.
+    destruct p; [congruence|discriminate]. }
   assert (P : parse_tcp_flags (join 44 pieces) = Some names).
   { apply C18_tcp_flags_exact. right. split; [exact Hj|]. exists pieces. repeat split; assumption. }
   split; [exact P|]. exact (C18_tcp_flags_bits _ _ P).
@@ -100,6 +105,14 @@ Theorem C18_ip_flags_exact : forall s v,
   (s <> [] /\ Forall (fun n => is_flag_name rfc_ip_flags n = true) (split_on 44 (to_lower s)) /\
    v = rfc_bits rfc_ip_flags (split_on 44 (to_lower s))).
 Proof. exact (parse_ip_flags_exact C18_ip_table_certificate). Qed.
+
+(* round trip: any sequence of df / evil / mf (any subset, order, repetition), each in any ASCII letter
+   case, joined by commas, gives exactly the union of their header bits *)
+Theorem C18_ip_flags_roundtrip : forall written names,
+  names <> [] -> Forall ascii_bytes written ->
+  Forall2 (fun w n => map lower_byte w = n /\ is_flag_name rfc_ip_flags n = true) written names ->
+  parse_ip_flags (join 44 written) = Some (rfc_bits rfc_ip_flags names).
+Proof. exact (parse_ip_flags_roundtrip C18_ip_table_certificate). Qed.
 
 (* ---------------------------------------------------------------- ports file, exclusion file *)
 
@@ -266,6 +279,7 @@ Print Assumptions C18_tcp_flags_bits.
 Print Assumptions C18_tcp_flags_roundtrip.
 Print Assumptions C18_ip_table_certificate.
 Print Assumptions C18_ip_flags_exact.
+Print Assumptions C18_ip_flags_roundtrip.
 Print Assumptions C18_ports_file_exact.
 Print Assumptions C18_ports_file_v0_refuted.
 Print Assumptions C18_ports_file_roundtrip.
